@@ -21,6 +21,7 @@
   Table obligations (re-checked against the regenerated tables on every run):
     `tableOK_gen : TableOK Gen.operators`   (order/associativity conditions, no literal numbers)
     `errTableOK_gen : ErrTableOK Gen.tokErrorLiterals`
+    `regexSN_gen : Gen.tokRegexSN = …`     (the regex the model's `matchSN` was written for)
 
   Known finding D3 (not in the grammar above: `%` is only written after numeric literals): a
   reference followed by `%` makes the tokenizer raise ValueError — `D3_ref_percent` is the kernel-checked
@@ -48,6 +49,18 @@ example : TableOK (Gen.operators.map fun r => { r with prec := 10 * r.prec + 3 }
 theorem errTableOK_gen : ErrTableOK Gen.tokErrorLiterals := by
   intro c
   cases c <;> exact ⟨_, rfl, by decide, by decide, by decide⟩
+
+/-- the scientific-notation guard of the tokenizer is the regex `Model.Tokenizer.matchSN` transcribes: any
+    decimal numeral (`ddd`, `ddd.`, `ddd.ddd`, `.ddd`) followed by one `e`/`E` (repair D0101; it used to be
+    `^[1-9]{1}(\.[0-9]+)?[eE]{1}$`, which left the sign of `80E-3` outside the literal).  A change of the regex in
+    the source breaks this obligation; the language `matchSN` accepts is pinned by the two `example`s below and
+    compared with `re.match` by the correspondence runs. -/
+theorem regexSN_gen : Gen.tokRegexSN = "^([0-9]+\\.?[0-9]*|\\.[0-9]+)[eE]$".toList := by decide
+
+example : ["1E", "1.5e", "80E", "12.5E", "0.5e", "5.E", ".5E", "007E"].all (fun t => matchSN t.toList) = true := by
+  decide
+example : ["E", ".E", "1", "1.5", "A1E", "1E5", "1EE", "1.2.3E", "1E+", "-1E", "1_0E", " 1E"].all
+    (fun t => !matchSN t.toList) = true := by decide
 
 theorem lexHyps : LexHyps := ⟨errTableOK_gen, percentOf_numText⟩
 
@@ -235,7 +248,7 @@ theorem allDigitsB_iff (ds : List Nat) : allDigitsB ds = true ↔ AllDigits ds :
 
 theorem numLit_wfB_iff (n : NumLit) : n.wfB = true ↔ n.WF := by
   unfold NumLit.wfB NumLit.WF
-  simp only [Bool.and_eq_true, Bool.not_eq_true', List.isEmpty_eq_false_iff, allDigitsB_iff]
+  simp only [Bool.and_eq_true, Bool.or_eq_true, Bool.not_eq_true', List.isEmpty_eq_false_iff, allDigitsB_iff]
   constructor
   · rintro ⟨⟨⟨h1, h2⟩, h3⟩, h4⟩
     refine ⟨h1, h2, ?_, ?_⟩
@@ -247,14 +260,7 @@ theorem numLit_wfB_iff (n : NumLit) : n.wfB = true ↔ n.WF := by
       | some x =>
         obtain ⟨ng, ds⟩ := x
         rw [he] at h4
-        simp only [Bool.and_eq_true, Bool.not_eq_true', List.isEmpty_eq_false_iff, allDigitsB_iff] at h4
-        refine ⟨h4.1.1, h4.1.2, ?_⟩
-        cases hip : n.ip with
-        | nil => rw [hip] at h4; simp at h4
-        | cons d ds' =>
-          cases ds' with
-          | nil => rw [hip] at h4; exact ⟨d, rfl, by simpa using h4.2⟩
-          | cons _ _ => rw [hip] at h4; simp at h4
+        simpa [allDigitsB_iff] using h4
   · rintro ⟨h1, h2, h3, h4⟩
     refine ⟨⟨⟨h1, h2⟩, ?_⟩, ?_⟩
     · cases hf : n.fp with
@@ -265,8 +271,7 @@ theorem numLit_wfB_iff (n : NumLit) : n.wfB = true ↔ n.WF := by
       | some x =>
         obtain ⟨ng, ds⟩ := x
         rw [he] at h4
-        obtain ⟨h5, h6, d, h7, h8⟩ := h4
-        simp [h5, allDigitsB_iff, h6, h7, h8]
+        simpa [allDigitsB_iff] using h4
 
 theorem cell_wfB_iff (c : Cell) : c.wfB = true ↔ c.WF := by
   unfold Cell.wfB Cell.WF
